@@ -385,6 +385,14 @@ def exec (rs : List BVal) : List Instr → Machine → Outcome Machine
     | .error e => .error e
     | .panic k => .panic k
 
+/-- the number of `tick()` calls `Execute` makes on these instructions -/
+def ticks (rs : List BVal) : List Instr → Machine → Nat
+  | [], _ => 0
+  | i :: is, m =>
+    match step rs i m with
+    | .ok m' => 1 + ticks rs is m'
+    | _ => 1
+
 /-- `Execute` (resources and balances already resolved) -/
 def execute (instrs : List Instr) (rs : List BVal) (m : Machine) : Outcome Machine :=
   match instrs with
